@@ -150,8 +150,17 @@ fn one(h: &H, idx: u64, def: &str, inst: Option<&catalog::Inst>, domain: &str, e
         }
     };
     let name = def.split_whitespace().next().unwrap_or("");
-    let len = *rng.pick(&[0usize, 1, 2, 3, 17, 17, 40, if h.quick() { 300 } else { 2000 }]);
+    let mut len = *rng.pick(&[0usize, 1, 2, 3, 17, 17, 40, if h.quick() { 300 } else { 2000 }]);
+    if !h.quick() {
+        // the long sets of the quantifier (up to 10^5 members), now and then
+        match rng.below(2000) {
+            0 => len = 100_000,
+            1..=4 => len = 25_001,
+            _ => {}
+        }
+    }
     let set = gen_set(rng, inst, domain, len, epochs);
+    h.max("longest set (tuples)", len as f64, || def.to_string());
     h.distinct(mix(hash_str(def), set.iter().fold(len as u64, |a, p| mix(a, hash_f64s(p)))));
     if h.want_sample() && idx % 37 == 0 {
         h.sample(J::obj().set("definition", def).set("set_length", len).set("first", if len > 0 { J::coords(&set[0]) } else { J::Null }));
